@@ -26,7 +26,9 @@ import vlib
 LEVEL = "model_checking"
 JUDGE = ("StreamTrace", "StreamTrace.cfg")
 _LOCK = threading.Lock()
-OPNAMES = {1: "get_char", 2: "get_position", 3: "set_position", 4: "set_bad", 5: "literal", 6: "char_set"}
+OPNAMES = {1: "get_char", 2: "get_position", 3: "set_position", 4: "set_bad", 5: "literal", 6: "char_set",
+           7: "position_equal", 8: "location_output", 9: "get_char_error", 10: "string"}
+_OBS = {}   # observed-only disagreements (outside the statement of C12): signature -> [count, example]
 
 
 def build():
@@ -36,14 +38,14 @@ def build():
 # ------------------------------------------------------------------ scripts
 
 
-def script_of_hist(text, hist, ch=None):
+def script_of_hist(text, hist, ch=None, failat=-1):
     """Model history (events) -> harness script (calls).  set_position(off) becomes
     set_position(id of the first position handed out for that offset)."""
     ops = []
     offs = []
     for ev in hist:
         k = ev[0]
-        if k == 1 or k == 4:
+        if k in (1, 4, 9):
             ops.append([k])
         elif k == 2:
             ops.append([2])
@@ -56,6 +58,9 @@ def script_of_hist(text, hist, ch=None):
         elif k == 6:
             ops.append([6, ev[1]])
     s = {"text": text, "ops": ops}
+    if failat >= 0:
+        s["sk"] = 3
+        s["fa"] = failat
     if ch is not None:
         s["ch"] = ch
     return s
@@ -66,11 +71,13 @@ def script_of_record(r, upto=None):
     ops = []
     for ev in (r["ev"] if upto is None else r["ev"][:upto]):
         k = ev[0]
-        if k in (1, 2, 4):
+        if k in (1, 2, 4, 9):
             ops.append([k])
-        elif k in (3, 5, 6):
+        elif k in (3, 5, 6, 8, 10):
             ops.append([k, ev[1]])
-    return {"text": r["text"], "ops": ops, "ch": r["ch"]}
+        elif k == 7:
+            ops.append([k, ev[1], ev[2]])
+    return {"text": r["text"], "ops": ops, "ch": r["ch"], "sk": r.get("sk", 0), "fa": r.get("fa", -1)}
 
 
 # ------------------------------------------------------------------ judging
@@ -112,6 +119,13 @@ def _report(ctx, vd, lines, path, what):
             raise vlib.Infra("harness emitted a malformed record / a call outside the API precondition: line %d of %s" % (b["l"], path))
         rec = json.loads(lines[b["l"] - 1])
         sig = "C12:%s:%s" % (b["op"], "+".join(sorted(b["why"])))
+        if not b.get("scope", True):
+            # outside the statement of C12 (StreamTrace.tla InScope): observed, counted, never a VIOLATION
+            o = _OBS.setdefault("kind%d:%s" % (rec.get("sk", 0), sig), [0, None])
+            o[0] += 1
+            if o[1] is None:
+                o[1] = {"event_index": b["k"], "record": json.dumps(rec, separators=(",", ":"))[:600]}
+            continue
         if rec["f"] == "hist":
             payload = {"script": script_of_record(rec, b["k"]), "record": rec, "event_index": b["k"]}
             desc = "event %d %s of history %s" % (b["k"], rec["ev"][b["k"] - 1], json.dumps(rec, separators=(",", ":"))[:400])
@@ -136,6 +150,9 @@ def count_classes(ctx, lines, cap=60000):
             nl = 10 in r["text"]
             for ev in r["ev"]:
                 k = ev[0]
+                if k in (7, 8, 9, 10):
+                    ctx.count_class((r["ch"], r.get("sk", 0), OPNAMES[k], ev[-1] if k == 7 else (ev[1] if k == 9 and ev[1] < 0 else (ev[2] if k == 10 else 0))))
+                    continue
                 if k == 1:
                     res = "char" if ev[1] >= 0 else ("nothing" if ev[1] == -1 else "exc")
                 elif k == 2:
@@ -146,7 +163,7 @@ def count_classes(ctx, lines, cap=60000):
                     res = {1: "ok", 0: "fail-loc", -1: "fail-noloc", -2: "exc"}[ev[2]]
                 else:
                     res = ""
-                ctx.count_class((r["ch"], OPNAMES[k], res, rewound, bad, nl))
+                ctx.count_class((r["ch"], r.get("sk", 0), OPNAMES[k], res, rewound, bad, nl))
                 if k == 3:
                     rewound = True
                 if k == 4:
@@ -188,6 +205,9 @@ def run(ctx):
     # 1. the specification itself
     vlib.tlc_mc(ctx, "ParseStream", "MC_ParseStream_big.cfg" if thorough else "MC_ParseStream.cfg", timeout=2400)
     vlib.tlc_mc(ctx, "IStream", "MC_IStream.cfg", timeout=2400)
+    # extension: stream buffers that fail at an offset (abstract machine and lock-step), get_char_error, EqLaw
+    vlib.tlc_mc(ctx, "ParseStream", "MC_ParseStream_failat.cfg", timeout=2400)
+    vlib.tlc_mc(ctx, "IStream", "MC_IStream_failat.cfg", timeout=2400)
     if thorough:
         r = vlib.tlc_mc(ctx, "IStream", "MC_IStream_big.cfg", timeout=3000, coverage=True)
         # vacuity: every call of the model is generated; the four calls that can reach new states are taken
@@ -195,12 +215,13 @@ def run(ctx):
         cov = r.coverage()
         for a in ("IGetChar", "IGetPosition", "ISetPosition", "ISetBad", "ILiteral", "ICharSet"):
             taken, gen = cov.get(a, (0, 0))
-            if gen == 0 or (taken == 0 and a not in ("ILiteral", "ICharSet")):
+            if gen == 0 or (taken == 0 and a not in ("ILiteral", "ICharSet", "IGetCharError")):
                 raise vlib.Infra("coverage: action %s of IStream never taken (%d:%d)" % (a, taken, gen))
         ctx.extra["action_coverage"] = {a: list(cov[a]) for a in cov if a.startswith("I") and a != "IInit"}
     # vacuity guards: each re-introduced defect must violate the named invariant
     for cfg, inv in (("MC_IStream_colbug.cfg", "SavedExact"), ("MC_IStream_colbug_future.cfg", "FutureRefines"),
-                     ("MC_IStream_setposbug.cfg", "Refines"), ("MC_IStream_eofbug.cfg", "ReturnsAgree")):
+                     ("MC_IStream_setposbug.cfg", "Refines"), ("MC_IStream_eofbug.cfg", "ReturnsAgree"),
+                     ("MC_IStream_failbug.cfg", "ReturnsAgree")):
         r = vlib.tlc("IStream", cfg, workers=2, expect=inv)
         if inv not in r.invariant_violated:
             raise vlib.Infra("vacuity guard: %s did not violate %s" % (cfg, inv))
@@ -210,7 +231,9 @@ def run(ctx):
     raw = vlib._verdict_lines(r.out).get("SCRIPT", [])
     if len(raw) < 10000:
         raise vlib.Infra("script emission produced only %d scripts" % len(raw))
-    scripts = [script_of_hist(s["text"], s["hist"]) for s in raw if s["hist"]]
+    scripts = [script_of_hist(s["text"], s["hist"], failat=s["failat"]) for s in raw if s["hist"]]
+    # every fifth script without a failing offset is also replayed on a std::basic_stringstream (observed only)
+    scripts += [dict(x, sk=1) for x in scripts[::5] if "sk" not in x]
     if not thorough:
         scripts = scripts[ctx.seed % 2::2]
     binary = build()
@@ -262,12 +285,17 @@ def run(ctx):
         count_classes(ctx, s2, cap=5000)
         scan_upto = 12
         ctx.extra["scan_records"] = n1 + n2
+    ctx.extra["observations"] = [{"what": k, "count": v[0], "example": v[1]} for k, v in sorted(_OBS.items())]
+    for k, v in sorted(_OBS.items()):
+        vlib.log("OBSERVATION (outside the statement of C12, not a verdict): %s x%d e.g. %s" % (k, v[0], v[1]))
     ctx.exhaustive = False
     ctx.rule = ("histories = call sequences on one stream object: (a) every generated transition of the small TLC lock-step "
                 "model (texts <= 3, <= 7 calls) as a script, on char and wchar_t; (b) for EVERY text of length <= %d over "
                 "{a,\\n,space,tab}: %d seeded random call sequence(s) per character type (get_char/get_position/"
                 "set_position(saved)/literal/char_set, 1 in 8 with badbit set at a random step) and 3 phrase_parse_string "
-                "error-location records per type; (c) random texts of length 13..40; %s"
+                "error-location records per type, and one extension history (other stream kinds: stringstream, non-seekable, "
+                "failing at an offset; position ==, location <<, get_char_error, string parser - observed only); (c) random "
+                "texts of length 13..40; %s"
                 "a class = (char type, call, result class, after-a-rewind?, bad stream?, text has newline?) of an executed "
                 "event (counted on a sample of the log)" % (
                     maxlen, nseq,
@@ -300,6 +328,9 @@ def replay(ctx, payload):
         judge_file(ctx, rp, "replay", rc, out, harness_args=args)
     else:
         raise vlib.Infra("replay payload has neither a script nor harness arguments")
+    ctx.extra["observations"] = [{"what": k, "count": v[0], "example": v[1]} for k, v in sorted(_OBS.items())]
+    for k, v in sorted(_OBS.items()):
+        print("OBSERVATION (outside the statement of C12, not a verdict): %s x%d e.g. %s" % (k, v[0], v[1]))
     ctx.traces_validated += 1
     ctx.evaluations += 1
     ctx.count_class("replay")
